@@ -1,5 +1,6 @@
 #include <nano/function/penalty.h>
 #include <nano/solver/augmented.h>
+#include <nano/verif.h>
 
 using namespace nano;
 
@@ -79,6 +80,13 @@ solver_state_t solver_augmented_lagrangian_t::do_minimize(const function_t& func
         const auto iter_ok   = cstate.valid();
         const auto criterion = make_criterion(cstate, miu, ro);
         const auto converged = iter_ok && criterion <= epsilon && ::nano::converged(bstate, cstate, epsilon);
+#ifdef NANO_VERIF
+        {
+            const double values[] = {criterion, old_criterion, ro, epsilon, iter_ok ? 1.0 : 0.0, converged ? 1.0 : 0.0,
+                                     static_cast<double>(outer)};
+            ::nano::verif::event_values(::nano::verif::ev_al_outer, &cstate, values, 7);
+        }
+#endif
         if (iter_ok && criterion < old_criterion)
         {
             bstate.update(cstate.x(), lambda, miu);
